@@ -1,5 +1,5 @@
 (* C13 — output depends only on data directory and options, never on scheduling or reruns (partial: runtime not modelled). Pinned statements only: each theorem is closed by `exact` of a lemma proved in theories/. *)
-From RBP Require Import Bytes Model Misc Hashes Base58 Utf8 Wire Block Render ScriptCustom CustomTop ScriptBtc Index ParP.
+From RBP Require Import Bytes Model Misc Hashes Base58 Utf8 Wire Block Render ScriptCustom CustomTop ScriptBtc Index ParP HistoryP.
 From RBP Require Drive Merkle Utxo Stats OutProto Reader Published Misc.
 
 Theorem C13_indexed_collect_any_order :
@@ -26,9 +26,24 @@ Theorem C13_block_in_any_nested_order :
   forall (c : coin) (dflt_out : txout) (dflt : txout * escript) (dflt_tx : rawtx) (dflt_etx : etx) (ot : list nat) (oo : nat -> list nat) (b : block), complete_order (length (b_txs b)) ot -> (forall (i : nat) (t : rawtx), nth_error (b_txs b) i = Some t -> complete_order (length (tx_outputs t)) (oo i)) -> eval_block_in_order c dflt_out dflt dflt_tx dflt_etx ot oo b = eval_block c b.
 Proof. exact eval_block_any_order. Qed.
 
+Theorem C13_success_after_any_history :
+  forall (cap : nat) (L : N) (ws : list OutProto.wr) (rows : list (nat * bytes)) (trace : list OutProto.osop) (hist : list (list OutProto.osop)) (s : OutProto.fs), (0 < cap)%nat -> OutProto.run cap L ws rows = (trace, 0) -> NoDup (OutProto.tmps ws ++ OutProto.finals ws) -> OutProto.fresh_writers ws -> (forall r : nat * bytes, In r rows -> (fst r < length ws)%nat) -> forall j : nat, (j < length ws)%nat -> OutProto.fs_get (nth j (OutProto.finals ws) 0) (OutProto.apply_trace (after_history s hist) trace) = Some (OutProto.data_for j rows) /\ OutProto.fs_get (nth j (OutProto.tmps ws) 0) (OutProto.apply_trace (after_history s hist) trace) = None.
+Proof. exact success_after_any_history. Qed.
+
+Theorem C13_same_result_in_any_two_folders :
+  forall (cap : nat) (L : N) (ws : list OutProto.wr) (rows : list (nat * bytes)) (trace : list OutProto.osop) (s1 s2 : OutProto.fs), (0 < cap)%nat -> OutProto.run cap L ws rows = (trace, 0) -> NoDup (OutProto.tmps ws ++ OutProto.finals ws) -> OutProto.fresh_writers ws -> (forall r : nat * bytes, In r rows -> (fst r < length ws)%nat) -> forall j : nat, (j < length ws)%nat -> OutProto.fs_get (nth j (OutProto.finals ws) 0) (OutProto.apply_trace s1 trace) = OutProto.fs_get (nth j (OutProto.finals ws) 0) (OutProto.apply_trace s2 trace).
+Proof. exact same_result_in_any_two_folders. Qed.
+
+Theorem C13_later_run_wins :
+  forall (cap : nat) (L : N) (ws : list OutProto.wr) (rows1 rows2 : list (nat * bytes)) (tr1 : list OutProto.osop) (e1 : OutProto.exitcode) (tr2 : list OutProto.osop) (s : OutProto.fs), (0 < cap)%nat -> OutProto.run cap L ws rows1 = (tr1, e1) -> OutProto.run cap L ws rows2 = (tr2, 0) -> NoDup (OutProto.tmps ws ++ OutProto.finals ws) -> OutProto.fresh_writers ws -> (forall r : nat * bytes, In r rows2 -> (fst r < length ws)%nat) -> forall j : nat, (j < length ws)%nat -> OutProto.fs_get (nth j (OutProto.finals ws) 0) (OutProto.apply_trace (OutProto.apply_trace s tr1) tr2) = Some (OutProto.data_for j rows2).
+Proof. exact later_run_wins. Qed.
+
 Print Assumptions C13_indexed_collect_any_order.
 Print Assumptions C13_prestate_independent.
 Print Assumptions C13_failure_touches_no_final.
 Print Assumptions C13_result_independent_of_folder_content.
 Print Assumptions C13_outputs_in_any_order.
 Print Assumptions C13_block_in_any_nested_order.
+Print Assumptions C13_success_after_any_history.
+Print Assumptions C13_same_result_in_any_two_folders.
+Print Assumptions C13_later_run_wins.
